@@ -320,6 +320,70 @@ func runC03(w *vx.W) {
 			}
 		}
 	}
+	// identical and partly identical messages must each be kept (exactly-once membership is per record, not per
+	// content): ids 1,2,1,1,3 in the identity field, and again in message_index (254) where the message has it
+	for _, t := range fileTypes {
+		for _, sl := range hosts()[byte(t.Type)] {
+			if !sl.IsSlice {
+				continue
+			}
+			k++
+			if !w.Mine(k) {
+				continue
+			}
+			var sym c03Sym
+			for _, a := range alpha {
+				if a.Mesg == sl.Mesg {
+					sym = a
+				}
+			}
+			carriers := []fit.VerifField{}
+			if sym.HasID {
+				carriers = append(carriers, sym.ID)
+			}
+			if e, ok := prof().fields[sl.Mesg][254]; ok && (!sym.HasID || sym.ID.Num != 254) && e.Kind == kindNative && !e.Array {
+				carriers = append(carriers, e)
+			}
+			for _, carrier := range carriers {
+				ids := []uint64{1, 2, 1, 1, 3}
+				parts := fitmodel.FileIdRecords(0, byte(t.Type))
+				bs := fitmodel.BaseSize(carrier.Base)
+				fd := fitmodel.FieldDef{Num: carrier.Num, Size: byte(bs), Base: carrier.Base}
+				d := fitmodel.Def{Local: 1, Global: sl.Mesg, Fields: []fitmodel.FieldDef{fd}}
+				parts = append(parts, d.Bytes())
+				var wants []reflect.Value
+				for _, id := range ids {
+					b := fitmodel.PutUint(binaryOrder(false), bs, id)
+					parts = append(parts, fitmodel.Data(1, b))
+					want := newWant(sl.Mesg, byte(t.Type))
+					modelSet(want, carrier, fd, false, b)
+					wants = append(wants, want)
+				}
+				s := fitmodel.File(fitmodel.DefaultHeader, parts...)
+				res := safeDecode(bytes.NewReader(s))
+				w.Eval(1)
+				w.Trace(1)
+				w.Transition(int64(len(ids)))
+				w.Fam("duplicate-identities", 1)
+				rep := c03Replay{byte(t.Type), []string{fmt.Sprintf("5 x %s with field %d = 1,2,1,1,3", sym.Name, carrier.Num)}, vx.Hex(s)}
+				if res.Err != nil || res.Panic != "" {
+					w.Violation("routing-duplicates/"+t.Name, fmt.Sprintf("%s file: decode fails: %v %s", t.Name, res.Err, res.Panic), rep)
+					continue
+				}
+				got := messagesOf(res.File, sl.Mesg)
+				if len(got) != len(ids) {
+					w.Violation("routing-duplicates/"+t.Name, fmt.Sprintf("%s file, member %s: 5 records with field %d = 1,2,1,1,3 give %d messages", t.Name, sl.Name, carrier.Num, len(got)), rep)
+					continue
+				}
+				for i := range got {
+					if d := diffMsg(got[i], wants[i], compIgnore(got[i])); d != "" {
+						w.Violation("routing-duplicates/"+t.Name, fmt.Sprintf("%s file, member %s[%d]: %s", t.Name, sl.Name, i, d), rep)
+						break
+					}
+				}
+			}
+		}
+	}
 	// all 256 file-type bytes: Decode and NewFile
 	for b := 0; b < 256; b++ {
 		if !w.Mine(int64(b)) {
